@@ -275,3 +275,25 @@ def run(ctx):
     # ---- R-C02.5 who may touch files
     n = FS.check_fs_table(ctx, "R-C02.5")
     ctx.floor("R-C02.5", "fs-mutating call sites", n, 20)
+
+    # ---- R-C02.8 nothing un-replayable reaches the journal: the tree PANICS on an empty or over-long key. A single write must
+    # reject such a key BEFORE it takes the journal lock and appends the record — otherwise the record is journaled, the
+    # panic poisons the journal mutex (every later write fails), and every later open panics while replaying the record.
+    # (WriteBatch items are validated when they are created: batch::item::Item::new.)
+    for fn in R.write_entries(ctx):
+        if fn.id not in ("keyspace::Keyspace::insert", "keyspace::Keyspace::remove", "keyspace::Keyspace::remove_weak"):
+            continue
+        og = ctx.og(fn)
+        app = R.call_blocks(fn, R.APPEND)
+        lock = R.j_acquire_blocks(ctx, fn)
+        empt = []
+        for b, t in fn.calls():
+            if A.cname(t).endswith("::is_empty") and any(x.k == "param" and x.a[0] == 2 for x in A.walk(og.of_operand(t["args"][0]))):
+                empt.append(b)
+        lens = [b for b, t in fn.calls() if (A.cname(t).endswith("TryFrom<usize>>::try_from") or "try_from" in A.cname(t)) and "u16" in (A.cname(t) + (t.get("full") or ""))]
+        panics = [b for b, t in fn.calls() if A.cname(t).startswith(("core::panicking::", "std::rt::begin_panic", "std::panicking::"))]
+        ok = bool(app) and bool(lock) and bool(empt) and bool(lens) and bool(panics) and all(A.dominates(fn, e, lock[0]) for e in empt[:1] + lens[:1])
+        ctx.ob("R-C02.8", fn, "key-validated-before-the-journal", ok,
+               "an empty / over-long key is rejected before the journal lock is taken" if ok
+               else "the key is not validated before the record is journaled: insert(\"\") journals a record the tree then panics on — the journal mutex is poisoned and EVERY later open of the database panics while replaying that record",
+               fn.loc(app[0]) if app else "")
